@@ -597,6 +597,12 @@ class _Idioms(ast.NodeTransformer):
         self.generic_visit(n)
         if isinstance(n.value, ast.Attribute) and n.value.attr == "shape" and isinstance(n.slice, ast.Constant) and n.slice.value == 0 and isinstance(n.ctx, ast.Load):
             return ast.Call(func=ast.Name(id="len", ctx=ast.Load()), args=[n.value.value], keywords=[])
+        # a[k][s1, s2] -> a[k, s1, s2] for an integer constant k and an array-style (tuple containing a slice) outer index
+        inner = n.value
+        if isinstance(inner, ast.Subscript) and isinstance(inner.value, (ast.Name, ast.Attribute)) and isinstance(inner.slice, ast.Constant) \
+                and isinstance(inner.slice.value, int) and not isinstance(inner.slice.value, bool) \
+                and isinstance(n.slice, ast.Tuple) and any(isinstance(e, ast.Slice) for e in n.slice.elts):
+            return ast.Subscript(value=inner.value, slice=ast.Tuple(elts=[inner.slice, *n.slice.elts], ctx=ast.Load()), ctx=n.ctx)
         return n
 
     def visit_UnaryOp(self, n: ast.UnaryOp):
